@@ -344,6 +344,7 @@ NOTSAN static void* cli_peer(void* arg)
         memmove(p->buf, p->buf + pos, p->len - pos); p->len -= pos;
         int op = below(r, 8);
         if (P.win > 0) { if (p->vr != p->acked) peer_send_s(p); usleep(30); continue; }     /* window watch: acknowledge at once, nothing else */
+        if (P.close == 2) { if (below(r, 4) == 0) peer_send_u(p, 0x43); usleep(100 + below(r, 300)); continue; }   /* never acknowledges: frames stay unconfirmed until destroy */
         if (started && op < 4) peer_send_i(p, sp, 10, r);
         else if (op < 6) peer_send_s(p);
         else if (op < 7) peer_send_u(p, 0x43);
@@ -372,9 +373,11 @@ static void run_cli(void)
     CS104_Connection_sendStartDT(con);
     for (int i = 0; i < P.apps; i++) pthread_create(&at[i], NULL, cli_app, (void*) (intptr_t) (i + 1));
     Rng r = { (uint64_t) P.seed * 2750159u };
-    if (P.close) { usleep(1000 + below(&r, 15000)); CS104_Connection_close(con); }       /* close while senders are busy */
+    if (P.close == 1) { usleep(1000 + below(&r, 15000)); CS104_Connection_close(con); }       /* close while senders are busy */
     for (int i = 0; i < P.apps; i++) pthread_join(at[i], NULL);
     if (!P.close) { CS104_Connection_sendStopDT(con); usleep(1500); CS104_Connection_close(con); }
+    /* close=2: the connection is destroyed while it is open, with sent I-frames unconfirmed and the peer still talking:
+       destroy has to stop the connection thread before it releases what that thread uses */
     FLAG_SET(cli_stop, 1);
     pthread_join(pt, NULL);
     CS104_Connection_destroy(con); con = NULL;
